@@ -20,6 +20,14 @@ pub fn unlock_shared_slow(_l: &parking_lot::RawRwLock) {
     panic!("parking_lot unlock_shared_slow reached in a sequential harness")
 }
 
+/// `HashMap::new()` seeds its hasher from the OS RNG (a foreign call Kani cannot execute). The
+/// harnesses never hash; fixed keys.
+#[cfg(kani)]
+pub fn random_state_new() -> std::collections::hash_map::RandomState {
+    // RandomState is two u64 keys
+    unsafe { std::mem::transmute::<[u64; 2], std::collections::hash_map::RandomState>([0, 0]) }
+}
+
 /// `pharness!(name, |s| { body })`: like `harness!` plus the parking_lot slow-path stubs.
 #[macro_export]
 macro_rules! pharness {
@@ -27,6 +35,7 @@ macro_rules! pharness {
         #[cfg(kani)]
         #[kani::proof]
         #[kani::stub(alloc::fmt::format, $crate::vsrc::stub_format)]
+        #[kani::stub(std::collections::hash_map::RandomState::new, $crate::stubs::random_state_new)]
         #[kani::stub(parking_lot::RawRwLock::lock_exclusive_slow, $crate::stubs::lock_exclusive_slow)]
         #[kani::stub(parking_lot::RawRwLock::unlock_exclusive_slow, $crate::stubs::unlock_exclusive_slow)]
         #[kani::stub(parking_lot::RawRwLock::lock_shared_slow, $crate::stubs::lock_shared_slow)]
